@@ -124,7 +124,9 @@ impl Debt {
                     // And we are the ones doing decrements anyway.
                     if slot.pay_after_swap::<T>(ptr) {
                         #[cfg(arc_swap_verif)]
-                        verif_rt::probe(verif_rt::probes::PAYALL_PAID_SLOT, false);
+                        verif_rt::event(verif_rt::probes::PAYALL_PAID_SLOT, slot as *const Debt as usize);
+                        #[cfg(arc_swap_verif)]
+                        verif_rt::event(verif_rt::probes::PAID_STORAGE, storage_addr);
                         // Pre-pay one more, for another future slot
                         T::inc(&val);
                     }
